@@ -12,6 +12,7 @@ import (
 	"runtime/debug"
 	"strconv"
 	"strings"
+	"sync/atomic"
 	"testing"
 	"testing/cryptotest"
 	"time"
@@ -73,6 +74,8 @@ func knownSet() map[string]bool {
 // seeded from the program (testing/cryptotest.SetGlobalRandom), so that the
 // execution is a pure function of the program.
 func runOne(t *testing.T, pr *props.Prop, p *sim.Program, logOn bool) (res *sim.Result) {
+	runStarted.Store(time.Now().UnixNano())
+	defer runStarted.Store(0)
 	c := sim.NewCtx(knownSet(), os.Getenv("VERIF_NODE"), logOn)
 	body := func(t *testing.T) {
 		defer func() {
@@ -100,6 +103,28 @@ func runOne(t *testing.T, pr *props.Prop, p *sim.Program, logOn bool) (res *sim.
 		body(t)
 	}
 	return c.Result()
+}
+
+// runStarted is the wall-clock start of the run being executed (0 = none).
+// The per-run watchdog is the only place where the worker reads a real clock
+// for a decision: a single run that does not return within the limit ends the
+// process with exit status 7 and the marker line below; the driver then
+// re-executes that run alone, twice, before it calls it a hang. Runs take
+// milliseconds, the limit is tens of seconds.
+var runStarted atomic.Int64
+
+const watchdogMarker = "VERIF-RUN-WATCHDOG"
+
+func startRunWatchdog(limit time.Duration) {
+	go func() {
+		for {
+			time.Sleep(200 * time.Millisecond)
+			if s := runStarted.Load(); s != 0 && time.Now().UnixNano()-s > int64(limit) {
+				fmt.Fprintf(os.Stderr, "%s: one run did not return within %v\n", watchdogMarker, limit)
+				os.Exit(7)
+			}
+		}
+	}()
 }
 
 func TestWorker(t *testing.T) {
@@ -135,6 +160,9 @@ func TestWorker(t *testing.T) {
 			os.Exit(2)
 		}
 	}
+	if mode == "explore" || mode == "replay" {
+		startRunWatchdog(time.Duration(envU("VERIF_RUNLIMIT", uint64(pr.RunLimit()))) * time.Second)
+	}
 	switch mode {
 	case "describe":
 		type desc struct {
@@ -145,8 +173,9 @@ func TestWorker(t *testing.T) {
 			QuickSecs, ThoroughSecs   int
 			RunsPerJob                int
 			HangSecs                  int
+			RunLimitSecs              int
 		}
-		d := desc{ID: pr.ID, Level: pr.Level, Rule: pr.Rule, NodesQuick: pr.Nodes("quick"), NodesThorough: pr.Nodes("thorough"), Cross: pr.Cross,
+		d := desc{RunLimitSecs: pr.RunLimit(), ID: pr.ID, Level: pr.Level, Rule: pr.Rule, NodesQuick: pr.Nodes("quick"), NodesThorough: pr.Nodes("thorough"), Cross: pr.Cross,
 			Real: pr.Real, Stubs: pr.Stubs, Assume: pr.Assume, QuickSecs: pr.QuickSecs, ThoroughSecs: pr.ThoroughSecs, RunsPerJob: pr.RunsPerJob, HangSecs: pr.HangSecs}
 		b, _ := json.Marshal(&d)
 		os.WriteFile(os.Getenv("VERIF_OUT"), b, 0o644)
